@@ -428,6 +428,16 @@ func c20Isolation(c *mon.Ctx, r *mon.Rand) {
 	if reuse {
 		c.Class("isolation-caller-reuses-its-slice", 1)
 	}
+	custom := make([]bool, len(fam))
+	skipped := make([]bool, len(fam))
+	if !concurrent && r.Chance(1, 4) {
+		for try := 0; try < 4; try++ {
+			if k := r.Intn(len(fam)); !fam[k].IsDur && k != order[0] {
+				custom[k] = true
+				break
+			}
+		}
+	}
 	create := func(i int) {
 		var b tally.Buckets
 		if fam[i].IsDur {
@@ -450,6 +460,25 @@ func c20Isolation(c *mon.Ctx, r *mon.Rand) {
 				v = bufV[len(v)]
 			}
 			b = tally.ValueBuckets(v)
+			if custom[i] {
+				b = c20Units(v)
+			}
+		}
+		if custom[i] {
+			// a caller-defined Buckets implementation: the library may refuse it (it
+			// panics today), but a histogram it does return must use these bounds
+			refused := true
+			func() {
+				defer func() { recover() }()
+				scopes[i].Histogram(fmt.Sprintf("h%d", i), b)
+				refused = false
+			}()
+			if refused {
+				skipped[i] = true
+				c.Class("custom-buckets-type-refused-by-the-library", 1)
+				return
+			}
+			c.Class("custom-buckets-type-accepted", 1)
 		}
 		h := scopes[i].Histogram(fmt.Sprintf("h%d", i), b)
 		for _, x := range hes[i].SamplesV {
@@ -488,6 +517,25 @@ func c20Isolation(c *mon.Ctx, r *mon.Rand) {
 	}
 	c.Event("histograms-created-in-colliding-families", int64(len(fam)))
 	for i := range hes {
+		if skipped[i] {
+			continue
+		}
 		checkHistLog(c, kind, cached, log, hes[i], ctx)
 	}
+}
+
+// c20Units is a caller-defined Buckets implementation (value buckets).
+type c20Units []float64
+
+func (u c20Units) String() string      { return fmt.Sprint([]float64(u)) }
+func (u c20Units) Len() int            { return len(u) }
+func (u c20Units) Less(i, j int) bool  { return u[i] < u[j] }
+func (u c20Units) Swap(i, j int)       { u[i], u[j] = u[j], u[i] }
+func (u c20Units) AsValues() []float64 { return append([]float64(nil), u...) }
+func (u c20Units) AsDurations() []time.Duration {
+	out := make([]time.Duration, len(u))
+	for i, v := range u {
+		out[i] = time.Duration(v * float64(time.Second))
+	}
+	return out
 }
